@@ -612,6 +612,19 @@ func vRestarts(rt *rapid.T, p *vPlan) {
 	}
 }
 
+// vDefragment makes every packet of the scenario arrive in one piece; returns how many were fragmented.
+func vDefragment(s *vtraffic.Scenario) int {
+	n := 0
+	for _, p := range s.Packets {
+		if len(p.FragCuts) > 0 {
+			p.FragCuts = nil
+			n++
+		}
+	}
+	s.Fragmented = 0
+	return n
+}
+
 func vNames(s *vtraffic.Scenario, caps []int) []string {
 	var n []string
 	for _, c := range caps {
@@ -631,6 +644,7 @@ func vTrafficLabels(c *vlib.Case, s *vtraffic.Scenario) vtraffic.Stats {
 	c.LabelIf(st.DeepReorder > 0, "segment-captured->256-segments-late")
 	c.LabelIf(s.EqualStamps > 0, "equal-timestamps-across-conversations")
 	c.LabelIf(s.Unordered > 0, "capture-file-not-in-timestamp-order")
+	c.LabelIf(s.Fragmented > 0, "ipv4-fragments")
 	c.LabelIf(st.BucketMates > 0, "udp-flows-sharing-a-flow-table-bucket")
 	c.LabelIf(st.BucketMates > 0 && st.DurationUS > 5*60*1000000, "udp-flows-sharing-a-flow-table-bucket+scenario>5min")
 	c.LabelIf(st.Retransmitted > 0, "retransmitted")
@@ -722,6 +736,9 @@ const (
 	vFindingSnapComplete = "F-C08-snapshot-forgets-closed-connection"
 	vFindingStaleSplit   = "F-C08-stale-stream-after-late-capture-fills-hole"
 	vFindingQuietCapture = "F-C08-capture-without-packets-at-start"
+	vFindingFragDropped  = "F-C05-fragmented-datagram-dropped"
+	vFindingFragDecode   = "F-C05-fragmented-datagram-decode-error"
+	vFindingFragSnapshot = "F-C08-fragments-lost-in-snapshot-replay"
 )
 
 func vOpen() map[string]bool {
@@ -916,6 +933,10 @@ func TestVerifC08(t *testing.T) {
 		vRestarts(rt, plan)
 		c.Count("excluded_known", vQuiet(rt, s, plan, open[vFindingStaleSplit]))
 		plan.Interval = rapid.SampledFrom(vIntervals).Draw(rt, "snapshot interval")
+		if open[vFindingFragSnapshot] && plan.Interval < 100_000 {
+			// a snapshot refers to a reassembled datagram by its last fragment only: no fragments where snapshots are taken
+			c.Count("excluded_known", vDefragment(s))
+		}
 		c.Render(func() any { return map[string]any{"traffic": s.Render(), "plan": plan} })
 		vTrafficLabels(c, s)
 		chrono := sort.IntsAreSorted(plan.Arrival)
@@ -1094,6 +1115,9 @@ func TestVerifC08Large(t *testing.T) {
 		cfg.AvoidSeqWrapDisorder = open[vFindingSeqWrap]
 		cfg.AvoidCutAfterSecondFin = open[vFindingSnapComplete]
 		s := vtraffic.GenFromSeed(cfg).Draw(rt, "traffic")
+		if open[vFindingFragSnapshot] {
+			c.Count("excluded_known", vDefragment(s))
+		}
 		c.Count("excluded_known", s.Steered+s.SteeredCuts)
 		plan := &vPlan{Interval: 100_000}
 		for i := range s.Captures {
@@ -1147,8 +1171,8 @@ func TestVerifC08Fixed(t *testing.T) {
 // ---------------------------------------------------------------------------------------------
 // fixed cases (probes of open findings / regression cases of repaired ones)
 
-var vC05FixedNames = []string{vFindingSeqWrap}
-var vC08FixedNames = []string{vFindingSnapComplete, vFindingStaleSplit, vFindingQuietCapture}
+var vC05FixedNames = []string{vFindingSeqWrap, vFindingFragDropped, vFindingFragDecode}
+var vC08FixedNames = []string{vFindingSnapComplete, vFindingStaleSplit, vFindingQuietCapture, vFindingFragSnapshot}
 
 func vEP(ip string, port uint16) vtraffic.Endpoint {
 	a := net.ParseIP(ip)
@@ -1207,6 +1231,42 @@ func vFixedCase(name string) (string, any) {
 		u.Datagram(vtraffic.C2S, 6)
 		s = m.Finish()
 		plan = &vPlan{Arrival: []int{0, 2, 1}, Batches: [][]int{{0}, {2}, {1}}, Restart: []bool{false, false, false}, Cached: []bool{false, false, false}, Interval: 100_000}
+		c08 = true
+	case vFindingFragDropped, vFindingFragDecode:
+		// a UDP flow to port 53 whose first datagram (not DNS) arrives as two IPv4 fragments, and a TCP connection
+		// with a fragmented data segment
+		m := vtraffic.NewManual(base)
+		u := m.UDP(vEP("10.0.0.1", 5353), vEP("10.0.0.2", 53), 3)
+		c := m.TCP(vEP("10.0.0.1", 40000), vEP("10.0.0.2", 80), 1000, 5000, 1)
+		u.Datagram(vtraffic.C2S, 100)
+		u.Datagram(vtraffic.S2C, 60)
+		c.Syn()
+		c.SynAck()
+		c.Ack(vtraffic.C2S)
+		b := c.Flight(vtraffic.C2S, 200)
+		c.Seg(vtraffic.C2S, b, 200)
+		s = m.Finish()
+		for _, p := range s.Packets {
+			if len(p.Payload) >= 100 {
+				p.FragCuts = []int{24}
+			}
+		}
+		s.Packets[0].FragReverse = true
+		plan = &vPlan{Arrival: []int{0}, Batches: [][]int{{0}}, Restart: []bool{false}, Cached: []bool{false}, Interval: 100_000}
+	case vFindingFragSnapshot:
+		// a UDP flow whose first datagram arrives as two fragments; a snapshot is taken right behind it; the flow
+		// continues in a second capture, whose import starts from the snapshot
+		m := vtraffic.NewManual(base)
+		u := m.UDP(vEP("10.0.0.1", 5353), vEP("10.0.0.2", 5454), 3)
+		w := m.UDP(vEP("10.0.0.3", 6000), vEP("10.0.0.2", 6001), 4)
+		u.Datagram(vtraffic.C2S, 100)
+		w.Datagram(vtraffic.C2S, 10)
+		w.Datagram(vtraffic.S2C, 10)
+		m.Cut()
+		u.Datagram(vtraffic.S2C, 60)
+		s = m.Finish()
+		s.Packets[0].FragCuts = []int{24}
+		plan = &vPlan{Arrival: []int{0, 1}, Batches: [][]int{{0}, {1}}, Restart: []bool{false, false}, Cached: []bool{false, false}, Interval: 1}
 		c08 = true
 	case vFindingQuietCapture:
 		// one UDP flow in two captures; a capture without packets is uploaded with the first one, then the service restarts
